@@ -102,8 +102,15 @@ Definition t_dir (t : option tentry) : bool := match t with Some (TDir _ _) => t
 Definition t_exec (t : option tentry) : bool := match t with Some (TFile x _) => x | _ => false end.
 Definition t_content (t : option tentry) : option bytes := match t with Some (TFile _ c) => c | _ => None end.
 
+Definition is_some {A} (o : option A) : bool := match o with Some _ => true | None => false end.
+(* a broken link (old entry without meta and hash) is DELETEd when absent from the target, MODIFY against an
+   entry with a hash, ADD against an entry without hash - deleted first in both cases (ADD since /repo 8d3fac7) *)
 Definition fd (delete : bool) (o : option node) (t : option tentry) : bool :=
-  o_file o && match t with None => delete | Some _ => negb (same_file o t) end.
+  match o with
+  | Some (File _ _ _) => match t with None => delete | Some _ => negb (same_file o t) end
+  | Some Dangling => match t with None => delete | Some _ => true end
+  | _ => false
+  end.
 Definition dd (delete : bool) (o : option node) (t : option tentry) (hn : bool) : bool :=
   o_dir o && match t with None => delete && negb hn | Some (TFile _ _) => true | Some (TDir _ _) => false end.
 Definition fc (o : option node) (t : option tentry) : bool := t_file t && negb (same_file o t).
@@ -460,26 +467,74 @@ Qed.
 Definition ws1 (p : list action * list key) (w : ws) : ws := fold_left (fun w k => rm k w) (files_delete (fst p)) w.
 Definition ws2 (p : list action * list key) (w : ws) : ws :=
   fold_left (fun w k => rmdir k w) (sort_desc (dirs_delete (fst p))) (ws1 p w).
-Definition ws3 (p : list action * list key) (w : ws) : ws := fold_left (fun w k => makedirs k w) (dirs_create (fst p)) (ws2 p w).
-Definition ws4 lt avail (p : list action * list key) (w : ws) : ws * errs := create_files lt avail (files_create (fst p)) (ws3 p w).
+Definition DCl (odc : list key) (p : list action * list key) : list key := reorder odc (dirs_create (fst p)).
+Definition cd3 (odc : list key) (p : list action * list key) (w : ws) : ws * bool := create_dirs (DCl odc p) (ws2 p w).
+Definition ws3 (odc : list key) (p : list action * list key) (w : ws) : ws :=
+  fold_left (fun w k => makedirs k w) (DCl odc p) (ws2 p w).
+Definition ws4 lt avail odc (p : list action * list key) (w : ws) : ws * errs :=
+  create_files lt avail (files_create (fst p)) (fst (cd3 odc p w)).
 
-Lemma apply_ws lt avail order p w :
-  o_ws (apply lt avail order p w) = fst (chmod_files (reorder order (files_chmod (fst p))) (fst (ws4 lt avail p w))).
+Lemma apply_dirs_raised lt avail order odc p w : o_dirs_raised (apply lt avail order odc p w) = snd (cd3 odc p w).
 Proof.
-  unfold apply, ws4, ws3, ws2, ws1. destruct (create_files _ _ _ _) as [w4 e4]. cbn [fst].
-  now destruct (chmod_files _ w4).
+  unfold apply, cd3, DCl, ws2, ws1. destruct (create_dirs _ _) as [w3 [|]]; cbn [snd]; auto.
+  destruct (create_files _ _ _ _) as [w4 e4]. now destruct (chmod_files _ w4).
 Qed.
-Lemma apply_errs lt avail order p w :
-  o_errs (apply lt avail order p w) = map (fun k => (k, 1)) (snd p) ++ snd (ws4 lt avail p w).
+Lemma apply_aborted lt avail order odc p w : snd (cd3 odc p w) = true ->
+  o_ws (apply lt avail order odc p w) = fst (cd3 odc p w) /\
+  o_errs (apply lt avail order odc p w) = map (fun k => (k, 1)) (snd p).
 Proof.
-  unfold apply, ws4, ws3, ws2, ws1. destruct (create_files _ _ _ _) as [w4 e4]. cbn [snd].
-  now destruct (chmod_files _ w4).
+  unfold apply, cd3, DCl, ws2, ws1. destruct (create_dirs _ _) as [w3 [|]]; cbn [fst snd]; [auto|discriminate].
 Qed.
-Lemma apply_raised lt avail order p w :
-  o_raised (apply lt avail order p w) = snd (chmod_files (reorder order (files_chmod (fst p))) (fst (ws4 lt avail p w))).
+Lemma apply_ws lt avail order odc p w : snd (cd3 odc p w) = false ->
+  o_ws (apply lt avail order odc p w) = fst (chmod_files (reorder order (files_chmod (fst p))) (fst (ws4 lt avail odc p w))).
 Proof.
-  unfold apply, ws4, ws3, ws2, ws1. destruct (create_files _ _ _ _) as [w4 e4]. cbn [fst].
-  now destruct (chmod_files _ w4).
+  unfold apply, ws4, cd3, DCl, ws2, ws1. destruct (create_dirs _ _) as [w3 [|]]; cbn [fst snd]; [discriminate|]. intros _.
+  destruct (create_files _ _ _ _) as [w4 e4]. cbn [fst]. now destruct (chmod_files _ w4).
+Qed.
+Lemma apply_errs lt avail order odc p w : snd (cd3 odc p w) = false ->
+  o_errs (apply lt avail order odc p w) = map (fun k => (k, 1)) (snd p) ++ snd (ws4 lt avail odc p w).
+Proof.
+  unfold apply, ws4, cd3, DCl, ws2, ws1. destruct (create_dirs _ _) as [w3 [|]]; cbn [fst snd]; [discriminate|]. intros _.
+  destruct (create_files _ _ _ _) as [w4 e4]. cbn [snd]. now destruct (chmod_files _ w4).
+Qed.
+Lemma apply_raised lt avail order odc p w : snd (cd3 odc p w) = false ->
+  o_raised (apply lt avail order odc p w) = snd (chmod_files (reorder order (files_chmod (fst p))) (fst (ws4 lt avail odc p w))).
+Proof.
+  unfold apply, ws4, cd3, DCl, ws2, ws1. destruct (create_dirs _ _) as [w3 [|]]; cbn [fst snd]; [discriminate|]. intros _.
+  destruct (create_files _ _ _ _) as [w4 e4]. cbn [fst]. now destruct (chmod_files _ w4).
+Qed.
+
+(* create_dirs: without an obstruction it is the fold of makedirs; it only touches path components of its keys *)
+Definition clear_at (w : ws) (q : key) : Prop := lookup w q = None \/ lookup w q = Some Dir.
+Lemma blocked_false w k : (forall q, In q (prefixes k) -> clear_at w q) -> blocked w k = false.
+Proof.
+  intros H. unfold blocked. destruct (existsb _ _) eqn:E; auto. apply existsb_exists in E as [q [I B]].
+  destruct (H q I) as [X|X]; rewrite X in B; discriminate.
+Qed.
+Lemma create_dirs_ok l : forall w, (forall k q, In k l -> In q (prefixes k) -> clear_at w q) ->
+  create_dirs l w = (fold_left (fun w k => makedirs k w) l w, false).
+Proof.
+  induction l as [|k l IH]; intros w H; simpl; auto.
+  rewrite blocked_false by (intros q I; apply (H k q); [now left | exact I]). apply IH.
+  intros k' q I1 I2. unfold clear_at. rewrite makedirs_spec.
+  destruct (H k' q (or_intror I1) I2) as [X|X]; rewrite X; auto. destruct (mem_key q (prefixes k)); auto.
+Qed.
+Lemma mk_until_other ps : forall w k, ~ In k ps -> lookup (mk_until ps w) k = lookup w k.
+Proof.
+  induction ps as [|q ps IH]; intros w k H; simpl; auto.
+  assert (k <> q) by (intros ->; apply H; now left).
+  assert (~ In k ps) by (intros X; apply H; now right).
+  destruct (lookup w q) as [[]|]; auto. rewrite IH; auto. rewrite lookup_set, key_eqb_neq; auto.
+Qed.
+Lemma create_dirs_other l : forall w k, (forall k', In k' l -> ~ In k (prefixes k')) ->
+  lookup (fst (create_dirs l w)) k = lookup w k.
+Proof.
+  induction l as [|k1 l IH]; intros w k H; simpl; auto.
+  destruct (blocked w k1); cbn [fst].
+  - apply mk_until_other. apply H. now left.
+  - rewrite IH by (intros; apply H; now right). rewrite makedirs_spec.
+    destruct (lookup w k); auto. destruct (mem_key k (prefixes k1)) eqn:E; auto.
+    apply mem_key_spec in E. exfalso. eapply H; eauto. now left.
 Qed.
 
 (* ---- C09_errors_reported -------------------------------------------------------------------------------- *)
@@ -504,22 +559,27 @@ Proof.
     left. right. rewrite create_file_unavail; auto. now left.
 Qed.
 
-Theorem errors_reported lt delete avail tr order w t k x c :
+Theorem errors_reported lt delete avail tr order odc w t k x c :
+  o_dirs_raised (checkout lt delete avail tr order odc w t) = false ->
   lookup (fst (expand tr t)) k = Some (TFile x c) ->
   unavailable avail c = true ->
   same_file (lookup w k) (Some (TFile x c)) = false ->
-  In (k, ecode c) (o_errs (checkout lt delete avail tr order w t)).
+  In (k, ecode c) (o_errs (checkout lt delete avail tr order odc w t)).
 Proof.
-  intros T U S. unfold checkout. rewrite apply_errs, in_app_iff. right.
+  intros R T U S. unfold checkout in *. rewrite apply_dirs_raised in R. rewrite apply_errs, in_app_iff by exact R. right.
   unfold ws4. rewrite create_files_eq. apply create_files_err; auto. right.
   apply In_files_create. rewrite T. unfold fc. cbn [t_file t_content]. now rewrite S.
 Qed.
 
-Theorem failed_reported lt delete avail tr order w t k :
-  In k (snd (expand tr t)) -> In (k, 1) (o_errs (checkout lt delete avail tr order w t)).
+Theorem failed_reported lt delete avail tr order odc w t k :
+  In k (snd (expand tr t)) -> In (k, 1) (o_errs (checkout lt delete avail tr order odc w t)).
 Proof.
-  intros H. unfold checkout. rewrite apply_errs, in_app_iff. left.
-  rewrite compare_eq. cbn [snd]. apply in_map_iff. exists k. split; auto. now apply dedup_In.
+  intros H. unfold checkout.
+  assert (X : In (k, 1) (map (fun k => (k, 1)) (snd (compare false delete w tr t)))).
+  { rewrite compare_eq. cbn [snd]. apply in_map_iff. exists k. split; auto. now apply dedup_In. }
+  destruct (snd (cd3 odc (compare false delete w tr t) w)) eqn:R.
+  - destruct (apply_aborted lt avail order odc _ _ R) as [_ E]. now rewrite E.
+  - rewrite apply_errs, in_app_iff by exact R. now left.
 Qed.
 
 (* ---- C09_no_delete ----------------------------------------------------------------------------------------- *)
@@ -534,9 +594,9 @@ Proof.
   apply mem_key_spec in E. exfalso. eapply H; eauto. now left.
 Qed.
 
-Theorem no_delete lt avail tr order w t k :
+Theorem no_delete lt avail tr order odc w t k :
   ~ is_node (fst (expand tr t)) k -> unshared (lookup w k) ->
-  lookup (o_ws (checkout lt false avail tr order w t)) k = lookup w k.
+  lookup (o_ws (checkout lt false avail tr order odc w t)) k = lookup w k.
 Proof.
   intros NN U. set (t' := fst (expand tr t)) in *.
   assert (NT : forall k', is_prefix k k' = true -> lookup t' k' = None).
@@ -546,21 +606,23 @@ Proof.
   assert (E1 : lookup (ws1 p w) k = lookup w k).
   { unfold ws1. rewrite rm_fold_spec.
     - destruct (mem_key k (files_delete (fst p))) eqn:E; auto. apply mem_key_spec, In_files_delete in E.
-      fold t' in E. rewrite NK in E. unfold fd in E. now rewrite andb_false_r in E.
+      fold t' in E. rewrite NK in E. unfold fd in E. destruct (lookup w k) as [[]|]; discriminate.
     - intros k' Hk'. apply In_files_delete in Hk'. unfold fd in Hk'. destruct (lookup w k') as [[]|]; simpl in Hk'; congruence. }
   assert (E2 : lookup (ws2 p w) k = lookup w k).
   { unfold ws2. rewrite rmdir_fold_other; auto. rewrite sort_desc_In. intros H. apply In_dirs_delete in H.
     fold t' in H. rewrite NK in H. unfold dd in H. now rewrite andb_false_r in H. }
-  assert (E3 : lookup (ws3 p w) k = lookup w k).
-  { unfold ws3. rewrite makedirs_fold_other; auto. intros k' Hk' Hp. apply In_dirs_create in Hk'. fold t' in Hk'.
+  assert (E3 : lookup (fst (cd3 odc p w)) k = lookup w k).
+  { unfold cd3. rewrite create_dirs_other; auto. intros k' Hk' Hp. apply reorder_In, In_dirs_create in Hk'. fold t' in Hk'.
     apply prefixes_is_prefix in Hp as [Hp _]. rewrite (NT _ Hp) in Hk'. discriminate. }
-  assert (E4 : lookup (fst (ws4 lt avail p w)) k = lookup w k).
+  destruct (snd (cd3 odc p w)) eqn:R.
+  { destruct (apply_aborted lt avail order odc _ _ R) as [E _]. now rewrite E. }
+  assert (E4 : lookup (fst (ws4 lt avail odc p w)) k = lookup w k).
   { assert (NP : forall k' c, In (k', c) (files_create (fst p)) -> is_prefix k k' = false).
     { intros k' c Hk'. apply In_files_create in Hk' as [Hk' _]. fold t' in Hk'. destruct (is_prefix k k') eqn:P; auto.
       rewrite (NT _ P) in Hk'. discriminate. }
     unfold ws4. rewrite create_files_eq, create_files_other; auto. cbn [fst].
     rewrite make_parents_other; auto. }
-  rewrite apply_ws, chmod_files_other.
+  rewrite (apply_ws lt avail order odc p w R). rewrite chmod_files_other.
   - exact E4.
   - intros H. apply reorder_In, In_files_chmod in H. fold t' in H. rewrite NK in H. discriminate.
   - now rewrite E4.
@@ -574,7 +636,7 @@ Definition ex_target : target :=
 
 (* without delete: [k] (outside the target) survives, a/x too; the blocked file a is reported (copy) *)
 Example ex_no_delete :
-  let o := checkout Copy false [[65]; [69]] [] [] ex_ws ex_target in
+  let o := checkout Copy false [[65]; [69]] [] [] [] ex_ws ex_target in
   lookup (o_ws o) [[107]] = Some (File [107] true false) /\
   lookup (o_ws o) [[97]; [120]] = Some (File [120] false false) /\
   o_errs o = [([[97]], 2)] /\ ~ is_node (fst (expand [] ex_target)) [[107]].
@@ -586,13 +648,13 @@ Qed.
 
 (* an unavailable source is reported *)
 Example ex_errors_reported :
-  o_errs (checkout Hardlink true [[65]] [] [] ex_ws ex_target) = [([[100]; [101]], 2)] /\
+  o_errs (checkout Hardlink true [[65]] [] [] [] ex_ws ex_target) = [([[100]; [101]], 2)] /\
   unavailable [[65]] (Some [69]) = true /\
   lookup (fst (expand [] ex_target)) [[100]; [101]] = Some (TFile false (Some [69])).
 Proof. repeat split; vm_compute; reflexivity. Qed.
 
 (* ... and, since 41e56e8, under symlink too (no dangling link is made) *)
 Example ex_errors_reported_symlink :
-  let o := checkout Symlink true [[65]] [] [] ex_ws ex_target in
+  let o := checkout Symlink true [[65]] [] [] [] ex_ws ex_target in
   o_errs o = [([[100]; [101]], 2)] /\ lookup (o_ws o) [[100]; [101]] = None.
 Proof. split; vm_compute; reflexivity. Qed.
